@@ -353,7 +353,7 @@ class Machine(object):
                 it.err = ("exc", "AssertionError")
 
 
-SKIP = frozenset(["with:Xp", "with:Xr"])
+SKIP = frozenset(["with:Xp", "with:Xr", "dd", "ddirty"])
 
 
 def lockstep(prog, r, conv_parent=False):
